@@ -26,3 +26,9 @@ pub assume_specification<T, E, U, F> [std::result::Result::<T, E>::and_then] (r:
     requires r is Ok ==> f.requires((r->Ok_0,)),
     ensures r is Err ==> out is Err && out->Err_0 == r->Err_0,
             r is Ok ==> f.ensures((r->Ok_0,), out);
+// `Option::map_or`: the default for None, the closure applied to the content otherwise (core::option definition)
+pub assume_specification<T, U, F> [std::option::Option::<T>::map_or] (o: std::option::Option<T>, default: U, f: F) -> (out: U)
+    where F: std::ops::FnOnce(T,) -> U + std::marker::Destruct, U: std::marker::Destruct, T: std::marker::Destruct,
+    requires o is Some ==> f.requires((o->Some_0,)),
+    ensures o is None ==> out == default,
+            o is Some ==> f.ensures((o->Some_0,), out);
